@@ -547,7 +547,9 @@ class DataFile:
 
       else:
 
-        line_count = tf.line_count(self.tti_tf, is_double_height_characters)
+        # newline codes at the end of the text field do not start a new row
+
+        line_count = tf.line_count(self.tti_tf.rstrip(b'\x8a'), is_double_height_characters)
         vp = tti.VP
         line_height = 2 if is_double_height_characters else 1
 
